@@ -233,7 +233,7 @@ impl Scratch {
         let _ = std::fs::remove_dir_all(&ws);
         std::fs::create_dir_all(&ws).expect("ws dir");
         for f in tree {
-            let p = ws.join(&f.path);
+            let p = ws.join(decode_path(&f.path));
             if let Some(parent) = p.parent() {
                 std::fs::create_dir_all(parent).expect("src parent");
             }
@@ -267,8 +267,48 @@ impl Drop for Scratch {
     }
 }
 
+/// `%XX` escapes in a tree path stand for raw bytes (file names that are not valid UTF-8)
+pub fn decode_path(p: &str) -> PathBuf {
+    use std::os::unix::ffi::OsStringExt;
+    let b = p.as_bytes();
+    let mut out = Vec::with_capacity(b.len());
+    let mut i = 0;
+    while i < b.len() {
+        if b[i] == b'%' && i + 2 < b.len() + 0 && i + 2 <= b.len() - 1 + 1 {
+            let h = |c: u8| (c as char).to_digit(16);
+            if let (Some(a), Some(c)) = (b.get(i + 1).and_then(|x| h(*x)), b.get(i + 2).and_then(|x| h(*x))) {
+                out.push((a * 16 + c) as u8);
+                i += 3;
+                continue;
+            }
+        }
+        out.push(b[i]);
+        i += 1;
+    }
+    PathBuf::from(std::ffi::OsString::from_vec(out))
+}
+
+/// how a tree path shows up in logs and diagnostics: lossy (U+FFFD) and Debug-escaped (\xNN)
+pub fn path_forms(p: &str) -> Vec<String> {
+    let d = decode_path(p);
+    let lossy = d.to_string_lossy().into_owned();
+    let dbg = format!("{:?}", d);
+    let dbg = dbg.trim_matches('"').to_string();
+    let mut v = vec![lossy];
+    if !v.contains(&dbg) {
+        v.push(dbg);
+    }
+    v
+}
+
 pub fn snapshot(loc: &Path) -> Snapshot {
     let mut s = Snapshot::new();
+    if let Ok(md) = std::fs::symlink_metadata(loc) {
+        if md.is_dir() {
+            // the output location itself exists
+            s.insert("./".to_string(), FileStat { bytes: vec![], ino: 0, mtime_ns: 0 });
+        }
+    }
     fn walk(base: &Path, p: &Path, s: &mut Snapshot) {
         let Ok(md) = std::fs::symlink_metadata(p) else { return };
         if md.is_dir() {
@@ -363,6 +403,11 @@ pub fn argv_for(inv: &Inv, ws: &Path, out: &Path, cfg_path: &Path) -> Vec<String
     a.push("-c".into());
     a.push(cfg_path.to_string_lossy().into_owned());
     match inv.mode {
+        Mode::File if inv.out_sub == BARE => {
+            // a bare file name, resolved against the process' working directory
+            a.push("--output-file".into());
+            a.push(bare_name(out, inv));
+        }
         Mode::File => {
             a.push("--output-file".into());
             a.push(out.join(inv.out_name()).to_string_lossy().into_owned());
@@ -380,10 +425,20 @@ pub fn argv_for(inv: &Inv, ws: &Path, out: &Path, cfg_path: &Path) -> Vec<String
     a
 }
 
+/// marker value of `Inv::out_sub`: the output file is given as a bare relative name
+pub const BARE: &str = "<bare>";
+
+/// unique bare file name for this scratch area (the working directory is shared by all threads)
+fn bare_name(out: &Path, inv: &Inv) -> String {
+    let tag = out.parent().and_then(|p| p.file_name()).map(|n| n.to_string_lossy().into_owned()).unwrap_or_default();
+    let leaf = out.file_name().map(|n| n.to_string_lossy().into_owned()).unwrap_or_default();
+    format!("bare-{tag}-{leaf}-types.{}", lang_ext(&inv.lang))
+}
+
 pub fn file_tags(tree: &Tree) -> BTreeMap<String, u32> {
     let mut paths: Vec<&str> = tree.iter().map(|f| f.path.as_str()).collect();
     paths.sort();
-    paths.iter().enumerate().map(|(i, p)| (format!("ws/{p}"), i as u32)).collect()
+    paths.iter().enumerate().map(|(i, p)| (format!("ws/{}", decode_path(p).to_string_lossy()), i as u32)).collect()
 }
 
 /// Run one CLI invocation on a fresh OS thread under the simulator. `out` is the output location
@@ -404,6 +459,17 @@ pub fn run_invocation(scratch: &mut Scratch, tree: &Tree, inv: &Inv, out: &Path)
     }
     let before = snapshot(out);
     let argv = argv_for(inv, &scratch.ws(), out, &cfg_path);
+    // bare output name: the file lives in the working directory for the duration of the
+    // invocation (rename keeps inode and mtime, so the before/after snapshots stay comparable)
+    let bare: Option<(PathBuf, PathBuf)> = if inv.mode == Mode::File && inv.out_sub == BARE {
+        let cwd_file = std::env::current_dir().unwrap_or_default().join(bare_name(out, inv));
+        let home = out.join(inv.out_name());
+        let _ = std::fs::remove_file(&cwd_file);
+        let _ = std::fs::rename(&home, &cwd_file);
+        Some((cwd_file, home))
+    } else {
+        None
+    };
     let root = scratch.root.clone();
     let tags = file_tags(tree);
     let inv2 = inv.clone();
@@ -560,6 +626,24 @@ pub fn run_invocation(scratch: &mut Scratch, tree: &Tree, inv: &Inv, out: &Path)
         std::thread::sleep(std::time::Duration::from_micros(50));
     }
     let mut o = handle.join().expect("invocation thread must not die");
+    if let Some((cwd_file, home)) = &bare {
+        if cwd_file.exists() {
+            let _ = std::fs::create_dir_all(out);
+            let _ = std::fs::rename(cwd_file, home);
+        }
+        let name = cwd_file.file_name().map(|n| n.to_string_lossy().into_owned()).unwrap_or_default();
+        // the unique bare name depends on the scratch area: keep it out of the event log
+        let canonical = format!("out/{}", inv.out_name());
+        for op in o.oplog.iter_mut() {
+            if op.path == name {
+                op.path = canonical.clone();
+            }
+        }
+        o.err_text = o.err_text.replace(&name, &canonical);
+        for d in o.diags.iter_mut() {
+            d.1 = d.1.replace(&name, &canonical);
+        }
+    }
     o.before = before;
     o.after = snapshot(out);
     o
